@@ -5,6 +5,7 @@
 package main
 
 import (
+	"bytes"
 	"fmt"
 	"os"
 	"runtime"
@@ -16,6 +17,7 @@ import (
 
 	"github.com/oasisprotocol/curve25519-voi/internal/strobe"
 	"github.com/oasisprotocol/curve25519-voi/internal/verif/mc"
+	"github.com/oasisprotocol/curve25519-voi/internal/verif/ref/refstrobe"
 	"github.com/oasisprotocol/curve25519-voi/primitives/merlin"
 )
 
@@ -62,7 +64,7 @@ func midAlphabet() []op {
 	var a []op
 	lens := []int{0, 1, 166, 167, 333}
 	for _, k := range []opKind{kAppend, kExtract} {
-		for _, l := range labelLens {
+		for _, l := range []int{0, 165} { // the one-byte label is in sweep1, lengths and depth (cost: five configurations)
 			for _, n := range lens {
 				a = append(a, op{kind: k, label: l, n: n})
 			}
@@ -516,6 +518,8 @@ func run(c *mc.Ctx) {
 		})
 	}
 
+	nilRandCheck(c)
+
 	// Identical histories give identical outputs, also when two objects are interleaved.
 	det := spaces[0]
 	c.Par("determinism", det.size(), func(w *mc.W, i int) {
@@ -613,6 +617,73 @@ func guard(w *mc.W, h hist, counted *bool, class string) {
 		buf = buf[:runtime.Stack(buf, false)]
 		w.Fail("merlin/panic", fmt.Sprintf("panic: %v | history: %s\n%s", r, h, buf), map[string]string{"history": h.String()})
 	}
+}
+
+// nilRandCheck (theme T12): Finalize(nil) uses crypto/rand, the documented default.  No byte drawn from the
+// operating system is compared for EQUALITY with anything: the call must succeed, leave the transcript it was
+// built from untouched, end in the same cursor layout as a finalisation with supplied entropy, and its output
+// must differ from the output for all-zero entropy and from a second default finalisation (each fails with
+// probability 2^-256 for a correct library; a nil reader silently replaced by a constant one fails always).
+func nilRandCheck(c *mc.Ctx) {
+	step := c.Pick(4, 1)
+	c.Par("nil-rand", (2*rate+4)/step, func(w *mc.W, i int) {
+		n := i * step
+		h := hist{create: 13, ops: []op{{kind: kAppend, n: n}, {kind: kBuildRng}, {kind: kRekey, label: 1, n: 32}, {kind: kFinalize, reader: rdZero}, {kind: kRead, n: 32}}}
+		counted := false
+		defer guard(w, h, &counted, "nil-rand")
+		w.Eval("nil-rand", true)
+		counted = true
+		fail := func(msg string) {
+			w.Fail("merlin/Finalize/nil-rand", fmt.Sprintf("%s | NewTranscript('a'*13); AppendMessage('', %d bytes); BuildRng; RekeyWithWitnessBytes('a', 32 bytes); Finalize(nil); Read(32)", msg, n), nil)
+		}
+		ref := refReplay(h) // the same history with all-zero entropy (state after Read(32))
+		refOut := refReplayOutput(h)
+		t := merlin.NewTranscript(labelOf(13))
+		t.AppendMessage("", dataOf(h.ops[0]))
+		var before [208]byte
+		if stateHook {
+			before = fieldsOf(tTranscript, merlin.VerifStrobe(t))
+		}
+		var outs [2][]byte
+		for k := 0; k < 2; k++ {
+			r, err := t.BuildRng().RekeyWithWitnessBytes(labelOf(1), dataOf(h.ops[2])).Finalize(nil)
+			if err != nil || r == nil {
+				fail(fmt.Sprintf("Finalize(nil) returned (%v, %v)", r, err))
+				return
+			}
+			outs[k] = make([]byte, 32)
+			if m, err := r.Read(outs[k]); m != 32 || err != nil {
+				fail(fmt.Sprintf("Read returned (%d, %v)", m, err))
+			}
+			if s := merlin.VerifRngStrobe(r); stateHook && s != nil {
+				_, pos, pb, cf, _, _ := strobe.VerifFields(s)
+				rs := ref.rr.S
+				if (!missingField["pos"] && pos != rs.Pos) || (!missingField["posBegin"] && pb != rs.PosBegin) || (!missingField["curFlags"] && cf != rs.CurFlags) {
+					fail(fmt.Sprintf("cursor layout after Finalize(nil); Read(32) is (pos=%d, posBegin=%d, flags=%#x), with supplied entropy it is (%d, %d, %#x)", pos, pb, cf, rs.Pos, rs.PosBegin, rs.CurFlags))
+				}
+			}
+		}
+		if bytes.Equal(outs[0], refOut) || bytes.Equal(outs[1], refOut) {
+			fail("the output equals the output for all-zero entropy: the default entropy source is not used")
+		}
+		if bytes.Equal(outs[0], outs[1]) {
+			fail("two finalisations with the default entropy source give the same output")
+		}
+		if stateHook && fieldsOf(tTranscript, merlin.VerifStrobe(t)) != before {
+			fail("building and finalising an RNG modified the transcript")
+		}
+	})
+	c.Require("nil-rand", 80)
+}
+
+// refReplayOutput replays h on the reference and returns the output of its last operation.
+func refReplayOutput(h hist) []byte {
+	o := &tracked{typ: tTranscript, rt: refstrobe.NewTranscript([]byte(labelOf(h.create)))}
+	var out []byte
+	for _, p := range h.ops {
+		out = refApply(o, p)
+	}
+	return out
 }
 
 func parFor(n int, f func(i int)) {
